@@ -93,6 +93,9 @@ def pipeline_spec(base):
     return {"circuits": [spec], "ops": ops}, targets
 
 
+_ORACLE_CACHE = {}
+
+
 class World:
     """Freshly compiled operand + derived circuits for one configuration."""
 
@@ -224,7 +227,12 @@ class World:
             except Exception as e:  # noqa
                 probs.append((f"evaluating {self.pipe.op_of(t)} raised {type(e).__name__}: {e}", {"kind": "exception", "op": (self.pipe.op_of(t) or {"op": "operand"})["op"]}))
                 continue
-            exp = np.stack([self.pipe.value(t, val, r) for r in self.rows[t]])
+            ck = (self.case["base"], self.case.get("frozen"), t, self.key())
+            if ck not in _ORACLE_CACHE:  # the oracle depends on the base and the current parameter values only
+                if len(_ORACLE_CACHE) > 4000:
+                    _ORACLE_CACHE.clear()
+                _ORACLE_CACHE[ck] = np.stack([self.pipe.value(t, val, r) for r in self.rows[t]])
+            exp = _ORACLE_CACHE[ck]
             cont_int = self.pipe.op_of(t) is not None and any(d[0] == "cont" for d in self.pipe.domains().values()) and "integrate" in str(self.pipe.ops)
             if not close(got, exp, rtol=1e-6 if cont_int else 1e-8):
                 opn = (self.pipe.op_of(t) or {"op": "operand"})["op"]
